@@ -7,6 +7,15 @@ D=/dev/shm/pykmip-seedrun-$$
 mkdir -p "$D"
 trap 'rm -rf "$D"' EXIT
 git -C /repo archive HEAD | tar -x -C "$D"
+if ! ( cd "$D" && patch -p1 -s --dry-run < "$S/patch.diff" >/dev/null 2>&1 ); then
+  # /repo has moved on since the change was written (later fix: commits touch
+  # the same lines): fall back to the commit the seeded rounds were made
+  # against, so that the change itself is what the check sees
+  BASE="${SEEDED_BASE:-e4745f7}"
+  rm -rf "$D"; mkdir -p "$D"
+  git -C /repo archive "$BASE" | tar -x -C "$D"
+  echo "note: patch does not apply to /repo HEAD; applied to $BASE"
+fi
 ( cd "$D" && patch -p1 -s < "$S/patch.diff" ) || { echo "PATCH-DOES-NOT-APPLY"; exit 3; }
 VERIF_EVIDENCE_DIR="$D/evidence" VERIF_REPO="$D" "$(dirname "$(readlink -f "$0")")/../check" "$@"
 rc=$?
